@@ -7,6 +7,14 @@ ids = [p["id"] for p in props]
 
 # id -> (technique, level text, level note, design ref)
 CLAIMED = {
+ "C02": ("proptest-generated update histories + bounded exhaustive enumeration; reference model (fold of sections) as oracle",
+         "Generated-input search over update histories written by an independent PDF writer: 1-5 sections, each classic or stream format, each a partial map number -> direct | compressed | free, random subsection splitting and /Size growth; all 33 824 histories of <=3 sections over two numbers enumerated. Every number 0..Size+2 is resolved (cached and uncached) and compared with the model; trailer and typed page access are checked to be the newest.",
+         "well-formedness of generated histories is by construction (see harness/src/props/c02.rs); hybrid-reference files are out of scope",
+         "DESIGN.md §4 C02"),
+ "C11": ("proptest-generated object-stream layouts + exhaustive kind x position x trailing x filter grid; metamorphic oracle compressed == direct twin == written value",
+         "Generated-input search: each value is stored twice (object-stream member, ordinary object) and must resolve equal; three identical streams differ only in how /Length is stored. Exhaustive grid over 19 kind samples x 3 positions x trailing white-space x 6 filter chains x 2 length placements.",
+         "files come from the harness writer/encoders",
+         "DESIGN.md §4 C11"),
  "C03": ("proptest-generated values rendered by an independent randomised spec-conformant printer (choice tape); oracle = the printer's input value; sequence position invariant",
          "Generated-input search over (value tree, spelling) pairs: ~35 optional syntax constructs (white-space set, comments with each EOL, signs, leading zeros, fraction-only reals, octal/named/ignored escapes, line continuations, balanced parentheses, hex strings with white-space/odd digits, #xx names and keys, separator elision, stream EOLs) in four parse entry points. The evidence lists per-construct counts. Exploration: constructs are sampled in combination, not enumerated.",
          "the printer is my reading of ISO 32000-1 7.2-7.3; reals denote std's correctly-rounded f32 of their decimal text",
